@@ -22,7 +22,13 @@ import (
 	"verif/internal/overlay"
 )
 
-const repo = "/repo"
+// repo is the checkout under verification (overridable for background runs on a snapshot).
+var repo = func() string {
+	if d := os.Getenv("VERIF_REPO_DIR"); d != "" {
+		return d
+	}
+	return "/repo"
+}()
 
 // verif is the directory holding the framework (overridable for background runs from a snapshot).
 var verif = func() string {
